@@ -395,6 +395,112 @@ func runC02(c *Collector, r *Rng, thorough bool) {
 			}
 		}
 	}
+	// ---- one message value used again after the application wrote into its byte slices in place (payload, a kid held
+	// in the protected bucket, the external data buffer): what the key is handed next is the structure of the bytes as
+	// they are now ----
+	for _, kindName := range []string{"COSE_Sign1", "COSE_Sign1 untagged", "COSE_Sign"} {
+		for _, edit := range []string{"payload", "protected kid", "external"} {
+			payload := []byte("payload-0")
+			kid := []byte("kid-0")
+			ext := []byte("ext-0")
+			hdrs := func() cose.Headers {
+				return cose.Headers{Protected: cose.ProtectedHeader{cose.HeaderLabelAlgorithm: cose.AlgorithmES256, cose.HeaderLabelKeyID: kid}, Unprotected: cose.UnprotectedHeader{}}
+			}
+			var signAgain func(sg *spySigner) error
+			var verify func(vf *spyVerifier) error
+			var want func() []byte
+			switch kindName {
+			case "COSE_Sign":
+				sm := &cose.SignMessage{Headers: cose.Headers{Protected: cose.ProtectedHeader{}}, Payload: payload, Signatures: []*cose.Signature{{Headers: hdrs()}}}
+				signAgain = func(sg *spySigner) error { sm.Signatures[0].Signature = nil; return sm.Sign(nil, ext, sg) }
+				verify = func(vf *spyVerifier) error { return sm.Verify(ext, vf) }
+				want = func() []byte { w, _ := refSigN(&sm.Headers, &sm.Signatures[0].Headers, ext, sm.Payload); return w }
+			default:
+				m := &cose.Sign1Message{Headers: hdrs(), Payload: payload}
+				if kindName == "COSE_Sign1" {
+					signAgain = func(sg *spySigner) error { m.Signature = nil; return m.Sign(nil, ext, sg) }
+					verify = func(vf *spyVerifier) error { return m.Verify(ext, vf) }
+				} else {
+					signAgain = func(sg *spySigner) error {
+						m.Signature = nil
+						return (*cose.UntaggedSign1Message)(m).Sign(nil, ext, sg)
+					}
+					verify = func(vf *spyVerifier) error { return (*cose.UntaggedSign1Message)(m).Verify(ext, vf) }
+				}
+				want = func() []byte { w, _ := refSig1(&m.Headers, ext, m.Payload); return w }
+			}
+			rep := map[string]any{"structure": kindName, "edited_in_place": edit}
+			sg1 := &spySigner{alg: -7, kind: SOk, sig: []byte{1, 2, 3}}
+			if err := signAgain(sg1); err != nil || len(sg1.calls) != 1 {
+				continue
+			}
+			vf1 := &spyVerifier{alg: -7}
+			verify(vf1)
+			for round := 1; round <= 2; round++ {
+				switch edit {
+				case "payload":
+					payload[len(payload)-1] = byte('0' + round)
+				case "protected kid":
+					kid[len(kid)-1] = byte('0' + round)
+				case "external":
+					ext[len(ext)-1] = byte('0' + round)
+				}
+				c.Eval("used-again-after-in-place-edit/"+kindName, fmt.Sprint(edit, round), true)
+				vf := &spyVerifier{alg: -7}
+				verify(vf)
+				if w := want(); len(vf.calls) != 1 || !bytes.Equal(vf.calls[0].content, w) {
+					c.Fail("C02/stale-structure", fmt.Sprintf("%s verified again after its %s was edited in place: the verifier was handed %x, the structure of the message as it is now is %x", kindName, edit, vfirst(vf), w), rep)
+				}
+				sg := &spySigner{alg: -7, kind: SOk, sig: []byte{1, 2, 3}}
+				if err := signAgain(sg); err == nil {
+					if w := want(); len(sg.calls) != 1 || !bytes.Equal(sg.calls[0], w) {
+						c.Fail("C02/stale-structure", fmt.Sprintf("%s signed again after its %s was edited in place: the signer was handed %x, the structure of the message as it is now is %x", kindName, edit, sg.calls, w), rep)
+					}
+				}
+			}
+		}
+	}
+	// ---- decoded messages whose payload is the zero-length byte string (h'', in every head width): present, so the
+	// verifier is consulted, with the structure over an empty payload ----
+	for _, wd := range []int{0, 1, 2, 4, 8} {
+		sp := wBstr(wMap(-1, wInt(1, -1), wInt(-7, -1)).Ser(), -1)
+		pl := &W{Maj: 2, Width: wd, Str: []byte{}}
+		ext := []byte("e")
+		want1 := refArray(refTstr("Signature1"), refBstr(sp.Str), refBstr(ext), refBstr(nil))
+		for _, tagged := range []bool{true, false} {
+			body := wArr(-1, sp.Clone(), wMap(-1), pl.Clone(), wBstr([]byte{9, 9}, -1))
+			data := body.Ser()
+			if tagged {
+				data = wTag(18, -1, body).Ser()
+			}
+			var m cose.Sign1Message
+			var err error
+			if tagged {
+				err = m.UnmarshalCBOR(data)
+			} else {
+				err = (*cose.UntaggedSign1Message)(&m).UnmarshalCBOR(data)
+			}
+			c.Eval("verify1/empty-payload", fmt.Sprint(wd, tagged), true)
+			if err != nil {
+				continue
+			}
+			vf := &spyVerifier{alg: -7}
+			verr := m.Verify(ext, vf)
+			if verr != nil || len(vf.calls) != 1 || !bytes.Equal(vf.calls[0].content, want1) {
+				c.Fail("C02/verify1-structure", fmt.Sprintf("a decoded message with a zero-length payload: Verify returned %v, the verifier was handed %x, the RFC structure is %x", verr, vfirst(vf), want1), map[string]any{"data": hx(data)})
+			}
+		}
+		mdata := wTag(98, -1, wArr(-1, wBstr(nil, -1), wMap(-1), pl.Clone(), wArr(-1, wArr(-1, sp.Clone(), wMap(-1), wBstr([]byte{9}, -1))))).Ser()
+		var sm cose.SignMessage
+		if err := sm.UnmarshalCBOR(mdata); err == nil {
+			wantN := refArray(refTstr("Signature"), refBstr(nil), refBstr(sp.Str), refBstr(ext), refBstr(nil))
+			vf := &spyVerifier{alg: -7}
+			verr := sm.Verify(ext, vf)
+			if verr != nil || len(vf.calls) != 1 || !bytes.Equal(vf.calls[0].content, wantN) {
+				c.Fail("C02/signature-structure-decoded", fmt.Sprintf("a decoded COSE_Sign with a zero-length payload: Verify returned %v, the verifier was handed %x, the RFC structure is %x", verr, vfirst(vf), wantN), map[string]any{"data": hx(mdata)})
+			}
+		}
+	}
 	// ---- keys that use the library themselves before reading their input (a KMS adapter signing an audit
 	// record, a verifier checking a certificate chain of COSE objects): the bytes they finally read must
 	// still be the structure of the outer operation ----
